@@ -188,7 +188,8 @@ pub fn tx_msgs(trace: &Trace, host: usize) -> Vec<TxM<'_>> {
         .iter()
         .enumerate()
         .filter_map(|(idx, e)| match &e.ev {
-            Ev::Tx(tx) if e.host == host => tx.msg.as_ref().ok().map(|m| TxM {
+            // (what no peer can hear does not count as sent)
+            Ev::Tx(tx) if e.host == host && !tx.misdirected => tx.msg.as_ref().ok().map(|m| TxM {
                 idx,
                 t: e.t,
                 iter: e.iter,
